@@ -58,3 +58,34 @@ func VerifDeleteSegmentByInstant() {
 	vnd.Assert(statErr != nil, "the segment starting at the given instant is removed, whatever offset the request uses")
 	vnd.Cover(zones[0] == 0, "reached")
 }
+
+// VerifDeleteSegmentNamesOneInstant: a request whose start is not the start of any segment (a little
+// after an existing one) deletes nothing and is refused.
+func VerifDeleteSegmentNamesOneInstant() {
+	time.Local = time.UTC
+	dir, err := os.MkdirTemp("", "verif-c31b")
+	if err != nil {
+		vnd.Assume(false)
+	}
+	defer os.RemoveAll(dir)
+	recordPath := dir + "/%path/%Y-%m-%d_%H-%M-%S-%f"
+	pconf := &conf.Path{Name: "cam", RecordPath: recordPath, RecordFormat: conf.RecordFormatFMP4}
+	instant := time.Date(2024, 3, 10, 22, 30, 15, 250000000, time.UTC)
+	segName := recordstore.Path{Start: instant, Path: "cam"}.Encode(recordstore.PathAddExtension(recordPath, conf.RecordFormatFMP4))
+	if os.MkdirAll(dir+"/cam", 0o755) != nil || os.WriteFile(segName, []byte("x"), 0o644) != nil {
+		vnd.Assume(false)
+	}
+	later := []time.Duration{time.Microsecond, 30 * time.Second, time.Hour}[vnd.Choose("later", 3)]
+	a := &API{Parent: &verifParent{c: &conf.Conf{Paths: map[string]*conf.Path{"cam": pconf}}}}
+	w := httptest.NewRecorder()
+	ctx, _ := gin.CreateTestContext(w)
+	q := url.Values{}
+	q.Set("path", "cam")
+	q.Set("start", instant.Add(later).Format(time.RFC3339Nano))
+	ctx.Request = &http.Request{Method: http.MethodDelete, URL: &url.URL{Path: "/v3/recordings/deletesegment", RawQuery: q.Encode()}}
+	a.onRecordingDeleteSegment(ctx)
+	_, statErr := os.Stat(segName)
+	vnd.Assert(statErr == nil, "a request that names no segment's start deletes nothing")
+	vnd.Assert(ctx.Writer.Status() >= 400, "a request that names no segment's start is refused")
+	vnd.Cover(true, "reached")
+}
